@@ -10,7 +10,7 @@ All theorems are parametric in the tables (glyph list, ENCODING rows, EncodingDB
 
 Only property theorems live here (helper lemmas: `Lemmas/SimpleFont.lean`, `Lemmas/Agl.lean`).
 -/
-import PdfVerif.Lemmas.SimpleFont
+import PdfVerif.Lemmas.SimpleFontBuild
 import PdfVerif.Lemmas.Agl
 
 namespace PdfVerif.Props.C06
@@ -26,12 +26,6 @@ structure TablesOK (T : Tables) : Prop where
   rowsResolve : RowsResolve T.gl T.rows
   /-- … and is an ordinary name (no lenient component, no partially unknown components) -/
   rowsJudged : ∀ r ∈ T.rows, judgedName T.gl (some r.1) = true
-
-/-- The `EncodingDB` the class body builds from the tables. -/
-def dbOf (T : Tables) : EncDB := EncDB.ofRows T.gl T.rows T.cols T.dflt
-
-/-- The font pdfminer constructs from a font dictionary. -/
-def modelFont (T : Tables) (fd : FontDict) : Font := build T.gl (dbOf T) T.fm fd
 
 /-! ## Glyph names -/
 
@@ -57,15 +51,6 @@ theorem enc_overlay (gl : GlyphList) (db : EncDB) (name : String) (diff : List D
     simp only [List.isEmpty_cons, Bool.false_eq_true, if_false]
     exact tlookup_applyDiff gl (tok :: rest) (db.get name) 0 code
 
-theorem baseName_mem {rows : List EncRow} {col : Nat} {code : Int} {n : Name}
-    (h : baseName rows col code = some n) : ∃ r ∈ rows, r.1 = n := by
-  unfold baseName at h
-  split at h
-  · rename_i r hf
-    have hm := List.mem_of_find?_eq_some hf
-    exact ⟨r, List.mem_reverse.mp hm, by simpa using h⟩
-  · simp at h
-
 /-- The encoding of a font as Unicode values: AGL value of the last Differences name, else of the base
 table's name for the code (StandardEncoding for unknown base names). -/
 theorem enc_text (T : Tables) (hT : TablesOK T) (name : String) (diff : List DiffTok) (code : Int)
@@ -84,74 +69,6 @@ theorem enc_text (T : Tables) (hT : TablesOK T) (name : String) (diff : List Dif
       have := hT.rowsJudged r hr
       rw [hrn] at this
       exact agl_grammar T.gl hT.glyphs (some n) this
-
-/-! ## Fonts: fields of the constructed font -/
-
-theorem build_umap (T : Tables) (fd : FontDict) :
-    (modelFont T fd).umap = fd.toUnicode.map buildUmap := by
-  unfold modelFont build
-  dsimp only
-  cases fd.isType3
-  · simp only [Bool.false_eq_true, if_false]
-    cases getMetrics T.fm (fd.baseFont.getD "unknown") <;> rfl
-  · rfl
-
-theorem build_hscale (T : Tables) (fd : FontDict) : (modelFont T fd).hscale = widthScale fd := by
-  unfold modelFont build widthScale
-  dsimp only
-  cases fd.isType3
-  · simp only [Bool.false_eq_true, if_false]
-    cases getMetrics T.fm (fd.baseFont.getD "unknown") <;> rfl
-  · rfl
-
-theorem build_defaultWidth (T : Tables) (fd : FontDict) : (modelFont T fd).defaultWidth = missingWidth fd := by
-  unfold modelFont build missingWidth descMissingWidth
-  dsimp only
-  cases fd.isType3
-  · simp only [Bool.false_eq_true, if_false]
-    cases getMetrics T.fm (fd.baseFont.getD "unknown") <;> rfl
-  · rfl
-
-theorem build_widthsInt (T : Tables) (fd : FontDict) :
-    (modelFont T fd).widthsInt = enumWidths (fd.firstChar.getD 0) (fd.widths.getD []) := by
-  unfold modelFont build
-  dsimp only
-  cases fd.isType3
-  · simp only [Bool.false_eq_true, if_false]
-    cases getMetrics T.fm (fd.baseFont.getD "unknown") <;> rfl
-  · rfl
-
-theorem build_widthsStr (T : Tables) (fd : FontDict) :
-    (modelFont T fd).widthsStr =
-      if fd.isType3 then [] else (getMetrics T.fm (fd.baseFont.getD "unknown")).getD [] := by
-  unfold modelFont build
-  dsimp only
-  cases fd.isType3
-  · simp only [Bool.false_eq_true, if_false]
-    cases getMetrics T.fm (fd.baseFont.getD "unknown") <;> rfl
-  · rfl
-
-theorem name2unicode_notdef (gl : GlyphList) (h : glLookup gl [] = none) :
-    name2unicode gl (some ['.', 'n', 'o', 't', 'd', 'e', 'f']) = none := by
-  simp [name2unicode, beforeDot, splitOn, comp, h, uniPrefix, List.isPrefixOf]
-
-theorem build_cid2unicode (T : Tables) (fd : FontDict) :
-    (modelFont T fd).cid2unicode =
-      match usesBuiltin T fd with
-      | some ff => builtinEncoding T.gl ff
-      | none => specEncoding T.gl (dbOf T) fd.enc := by
-  unfold modelFont build usesBuiltin isStd14
-  dsimp only
-  cases h3 : fd.isType3
-  · cases hm : getMetrics T.fm (fd.baseFont.getD "unknown") with
-    | some m => simp
-    | none =>
-      simp only [Bool.false_eq_true, if_false, Option.isSome_none, Bool.not_false, Bool.and_false,
-        Bool.or_self]
-      cases he : fd.enc <;> cases hd : fd.desc <;> simp
-      rename_i d
-      cases d.fontFile <;> simp
-  · simp
 
 /-- The built-in encoding of an embedded Type 1 program: AGL value of the last `put` for the code. -/
 theorem builtin_text (T : Tables) (hT : TablesOK T) (ff : FontFile) (code : Int)
@@ -321,5 +238,75 @@ theorem type3_scale (T : Tables) (fd : FontDict) (code : Int) (h3 : fd.isType3 =
       cases t with
       | nil => rfl
       | cons c r => cases r <;> simp [slookup]
+
+/-! ## The excluded region is really excluded: pdfminer's deliberate deviations from AGL -/
+
+/-- The unrestricted statement: `name2unicode` is the AGL algorithm on EVERY name. -/
+def agl_all_names_statement : Prop :=
+  ∀ (gl : GlyphList), GlyphListOK gl → ∀ nm : Option Name, name2unicode gl nm = aglText gl nm
+
+/-- Lower-case hexadecimal digits are accepted (pinned by pdfminer's unit tests), AGL rejects them. -/
+theorem agl_lowercase_cex :
+    name2unicode [] (some ['u', 'n', 'i', '0', '0', 'e', '9']) = some [0xE9] ∧
+    aglText [] (some ['u', 'n', 'i', '0', '0', 'e', '9']) = none := by decide
+
+/-- One unknown component makes the whole name unknown; AGL maps it to the empty string and keeps the rest. -/
+theorem agl_partial_components_cex :
+    name2unicode [(['A'], [65])] (some ['A', '_', 'f', 'o', 'o']) = none ∧
+    aglText [(['A'], [65])] (some ['A', '_', 'f', 'o', 'o']) = some [65] := by decide
+
+theorem agl_all_names_statement_false : ¬ agl_all_names_statement := by
+  intro h
+  have h1 := h [] (by intro e he; cases he) (some ['u', 'n', 'i', '0', '0', 'e', '9'])
+  rw [agl_lowercase_cex.1, agl_lowercase_cex.2] at h1
+  cases h1
+
+/-! ## Non-vacuity: small concrete tables and fonts that meet the hypotheses -/
+
+def gl0 : GlyphList := [(['A'], [65]), (['B'], [66]), (['s', 'p', 'a', 'c', 'e'], [32]), (['f', 'i'], [0xFB01])]
+
+def T0 : Tables :=
+  { gl := gl0,
+    rows := [(['A'], some 65, some 65, some 65, some 65), (['B'], some 66, none, some 66, some 66),
+             (['s', 'p', 'a', 'c', 'e'], some 32, some 32, some 32, some 32)],
+    cols := [("StandardEncoding", 1), ("WinAnsiEncoding", 3)], dflt := 1,
+    fm := [("Helvetica", [(65, 667), (32, 278)])] }
+
+theorem example_tables_ok : TablesOK T0 := by
+  refine ⟨?_, by decide, ?_, ?_⟩
+  · intro e he; simp [T0, gl0] at he; rcases he with rfl | rfl | rfl | rfl <;> simp
+  · intro r hr; simp [T0] at hr; rcases hr with rfl | rfl | rfl <;> decide
+  · intro r hr; simp [T0] at hr; rcases hr with rfl | rfl | rfl <;> decide
+
+/-- Helvetica, WinAnsi base, Differences [65 /fi /g123 66 /uni00410042], ToUnicode <20> -> U+0058, Widths from 66. -/
+def fd0 : FontDict :=
+  { isType3 := false, baseFont := some "Helvetica",
+    enc := .dict (some "WinAnsiEncoding")
+      [.num 65, .name (some ['f', 'i']), .name (some ['g', '1', '2', '3']), .num 66,
+       .name (some ['u', 'n', 'i', '0', '0', '4', '1', '0', '0', '4', '2'])],
+    toUnicode := some [.bfchar [0x20] [0x00, 0x58]],
+    firstChar := some 66, widths := some [500, 600],
+    desc := some { missingWidth := some 250, fontFile := none },
+    fontMatrix := (1, 0, 0, 1, 0, 0) }
+
+-- names of every class of the grammar are in the judged domain
+example : judgedName gl0 (some ['A']) = true := by decide
+example : judgedName gl0 (some ['u', 'n', 'i', '2', '0', 'A', 'C', '0', '3', '0', '8']) = true := by decide
+example : judgedName gl0 (some ['u', '1', '0', '4', '0', 'C']) = true := by decide
+example : judgedName gl0 (some ['A', '_', 'u', 'n', 'i', '0', '0', '4', '2', '.', 's', 'c']) = true := by decide
+example : aglText gl0 (some ['A', '_', 'u', 'n', 'i', '0', '0', '4', '2', '.', 's', 'c']) = some [65, 66] := by decide
+example : aglText gl0 (some ['u', 'n', 'i', 'D', '8', '0', '0']) = none := by decide
+example : aglText gl0 (some ['u', '1', '1', '0', '0', '0', '0']) = none := by decide
+
+-- every code of the example font is judged; the specification is not constant on it
+example : ∀ c ∈ [(32 : Int), 65, 66, 67], judgedCode T0 fd0 c = true := by decide +kernel
+example : specText T0 fd0 32 = [0x58] := by decide +kernel                      -- ToUnicode wins over the encoding
+example : specText T0 fd0 65 = [0xFB01] := by decide                    -- Differences name through the glyph list
+example : specText T0 fd0 66 = [65, 66] := by decide                    -- last Differences assignment (uni0041 0042) wins over g123
+example : specText T0 fd0 67 = placeholder 67 := by decide              -- no name for the code: (cid:67)
+example : specWidth T0 fd0 66 = 500 / 1000 := by decide +kernel         -- Widths[66 - FirstChar]
+example : specWidth T0 fd0 32 = 250 / 1000 := by decide +kernel         -- text is "X": no metric -> MissingWidth
+example : glyphText (modelFont T0 fd0) 66 = [65, 66] := by
+  rw [C06_text_precedence T0 example_tables_ok fd0 66 (by decide +kernel)]; decide +kernel
 
 end PdfVerif.Props.C06
